@@ -18,7 +18,7 @@ Here is a semantic property that caddy is supposed to satisfy:
 
 YOUR TASK: produce ONE realistic change to the non-test Go source in {wt} that BREAKS this property while (a) the repository still compiles (`go build ./...`), and (b) the EXISTING test suite still passes (at least `go vet`-free `go test -vet=off -count=1` of every package you touched and of the packages that import the changed code that have tests relevant to it; run `go test -vet=off -count=1 ./...` at the end if time allows — a handful of tests fail on the unmodified tree for environmental reasons; a test only counts against you if it passes without your change and fails with it). The change should look like something a developer could plausibly commit (a refactor gone subtly wrong, an "optimisation", an off-by-one, a dropped case, a reordered pair of statements, a changed default), NOT sabotage that ordinary use would expose at once. Prefer a change that needs something specific to manifest: a particular interleaving, a crash or fault at a particular point, a multi-step sequence of operations, an unusual input, or two cooperating sites that each look fine alone. {hint}
 
-Also write a DEMONSTRATION: a Go test file (name it zz_mutant_demo_test.go, in the appropriate package directory inside {wt}) or a small Go program under {wt}/zz_demo/, that FAILS with your change and PASSES without it, and that shows the property violation through observable behaviour. Verify both directions yourself (use `git stash` / `git stash pop` on the source change, or keep the change as a patch file).
+Also write a DEMONSTRATION: a Go test file (name it zz_mutant_demo_test.go, in the appropriate package directory inside {wt}) or a small Go program under {wt}/zz_demo/, that FAILS with your change and PASSES without it, and that shows the property violation through observable behaviour. Verify both directions yourself: save the change as a patch (`git diff > mutant.patch`), remove it with `git apply -R mutant.patch`, re-apply with `git apply mutant.patch`. NEVER use `git stash`: the stash is shared with other worktrees of this repository that other people are using right now.
 
 Environment: no network. Use `export GOFLAGS=-mod=mod GOPROXY=off` (nothing else — do not set GOTOOLCHAIN or GOSUMDB). Do not commit anything. Files whose names end in _verif.go (build tag `verif`) are test instrumentation — leave them alone and do not rely on them.
 
